@@ -93,6 +93,12 @@ ENGINES = {
     ),
 }
 
+# the same harness built with the AES-NI code paths compiled in (used at run time only if the CPU has AES-NI)
+ENGINES['secrets_hw'] = dict(ENGINES['secrets'],
+    repo=ENGINES['secrets']['repo'] + ['crypto/crypto_aes_aesni.c', 'crypto/crypto_aesctr_aesni.c', 'cpusupport/cpusupport_x86_aesni.c'],
+    cflags=['-maes', '-msse2'], cpuconfig='sim/aesni_config.h', props=['C20'],
+    real=ENGINES['secrets']['real'] + ' crypto_aes_aesni.c crypto_aesctr_aesni.c (hardware AES paths)')
+
 # property -> engines whose runs decide it
 PROP_ENGINES = {
     'C04': ['evloop'], 'C05': ['evloop'],
@@ -102,5 +108,5 @@ PROP_ENGINES = {
     'C12': ['containers'], 'C13': ['containers'],
     'C14': ['containers', 'evloop', 'netio', 'http'],
     'C19': ['secrets'],
-    'C20': ['secrets', 'entropy'],
+    'C20': ['secrets', 'secrets_hw', 'entropy'],
 }
